@@ -329,7 +329,7 @@ Definition cont_get_str (c : container) (k : str) : res odvar :=
   match sassoc k (c_names c) with Some v => Ok v | None => Err E_KEY end.
 
 Inductive key := KI (i : Z) | KS (k : str).
-Inductive lres := LObj (id : nat) (o : odobj) | LVar (v : odvar).
+Inductive lres := LObj (id : nat) (o : odobj) | LVar (id : nat) (v : odvar).   (* id: the object it belongs to *)
 
 Definition obj_get (o : odobj) (k : key) : res odvar :=
   match o with
@@ -347,7 +347,7 @@ Definition od_get (od : odict) (k : key) : res lres :=
           match split_dot t with
           | Some (a, b) =>
               match names_get od a with
-              | Some p => rbind (obj_get (snd p) (KS b)) (fun v => Ok (LVar v))
+              | Some p => rbind (obj_get (snd p) (KS b)) (fun v => Ok (LVar (fst p) v))
               | None => Err E_KEY
               end
           | None => Err E_KEY
@@ -855,15 +855,15 @@ Definition kv_val (kv : list (str * str)) : val :=
   VL (map (fun k => VL [VS k; match sassoc k kv with Some t => VS t | None => VNone end]) (ssort (map fst kv))).
 Definition doc_val (d : doc) : val := VL (map (fun sec => VL [VS (fst sec); kv_val (snd sec)]) d).
 
-(* "the same object": the variable reached is the one stored under its (index, sub-index);
-   VNone when nothing is stored there (a variable made from the array template) *)
-Definition same_var (od : odict) (v : odvar) : val :=
+(* "the same object": the variable reached (a member of heap object [id]) is the one stored under its
+   (index, sub-index); VNone when nothing is stored there (a variable made from the array template) *)
+Definition same_var (od : odict) (id : nat) (v : odvar) : val :=
   match od_get_int od (v_index v) with
-  | Ok (_, OVar v') => VBool (val_eqb (var_val v) (var_val v'))
-  | Ok (_, OCont c) => match zassoc (v_sub v) (c_subs c) with
-                       | Some v' => VBool (val_eqb (var_val v) (var_val v'))
-                       | None => VNone
-                       end
+  | Ok (id', OVar v') => VBool (Nat.eqb id id' && val_eqb (var_val v) (var_val v'))
+  | Ok (id', OCont c) => match zassoc (v_sub v) (c_subs c) with
+                         | Some v' => VBool (Nat.eqb id id' && val_eqb (var_val v) (var_val v'))
+                         | None => VNone
+                         end
   | _ => VNone
   end.
 Definition same_obj (od : odict) (id : nat) (o : odobj) : val :=
@@ -872,7 +872,7 @@ Definition same_obj (od : odict) (id : nat) (o : odobj) : val :=
 Definition lres_val (od : odict) (r : res lres) : val :=
   match r with
   | Ok (LObj id o) => VL [VL [VZ (obj_index o); VS (obj_name o)]; same_obj od id o]
-  | Ok (LVar v) => VL [var_val v; same_var od v]
+  | Ok (LVar id v) => VL [var_val v; same_var od id v]
   | Err k => VErr k
   | Abort c => VAbort c
   end.
@@ -882,8 +882,8 @@ Definition lookup (od : odict) (k1 : key) (k2 : option key) : val :=
   match k2 with
   | None => lres_val od (od_get od k1)
   | Some k => match od_get od k1 with
-              | Ok (LObj _ o) => res_val (fun v => VL [var_val v; same_var od v]) (obj_get o k)
-              | Ok (LVar _) => VErr E_TYPE
+              | Ok (LObj id o) => res_val (fun v => VL [var_val v; same_var od id v]) (obj_get o k)
+              | Ok (LVar _ _) => VErr E_TYPE
               | Err e => VErr e
               | Abort c => VAbort c
               end
